@@ -86,9 +86,14 @@ class UpgradedAnnotation(metaclass=abc.ABCMeta):
         return (id(self),)
 
     def __eq__(self, other):
+        if self is other:
+            return True
         if isinstance(other, UpgradedAnnotation):
             try:
-                return self.source_value() == other.source_value()
+                mine, theirs = self.source_value(), other.source_value()
+                # identity first, and a bool whatever == returns: the
+                # comparisons of inspect's own objects behave that way
+                return mine is theirs or bool(mine == theirs)
             except Exception:
                 # an annotation that cannot be evaluated has no value to compare:
                 # it only equals the same spelling in the same globals
